@@ -150,8 +150,10 @@ def build_harness(ctx, cc="gcc", flags=("-O2",), tag="gcc"):
     return exe, None
 
 
-def run_harness(exe, text, trace=True, timeout=1800, env=None):
-    return vlib.sh([exe] + (["trace"] if trace else []), input=text, timeout=timeout, env=env)
+def run_harness(exe, text, trace=True, timeout=1800, env=None, alarm=None):
+    e = dict(env or {})
+    e["C19_ALARM"] = str(alarm or max(60, timeout - 30))
+    return vlib.sh([exe] + (["trace"] if trace else []), input=text, timeout=timeout, env=e)
 
 
 class Stream:
@@ -389,7 +391,7 @@ def correspond(ctx):
 
     for st in streams:
         text = "\n".join(st.lines) + "\nF\n"
-        rc, out, e = run_harness(exe, text, trace=True)
+        rc, out, e = run_harness(exe, text, trace=True, timeout=ctx.scale(240, 1800))
         _, _, O, fails, summ, M, _ = parse_harness(out)
         OZ = O
         O = [w for w in OZ if w[0] == "O"]
@@ -404,8 +406,11 @@ def correspond(ctx):
                 d[k] = d.get(k, 0) + int(summ.get(k, 0))
         if rc not in (0, 3) or summ is None:
             ctx.violation("history:%s:%s" % (st.name, st.replay), "oracle",
-                          "allocator harness died (rc=%s) on stream %s: %s" % (rc, st.name, (e or out)[-400:]),
-                          detail={"replay": st.replay, "stdin_head": st.lines[:50]})
+                          "allocator harness died (rc=%s%s) on stream %s after %d traced operations; first failure reported before: %s" %
+                          (rc, " = SIGSEGV" if rc == -11 else " = watchdog/timeout" if rc in (-14, 124) else "", st.name, nops,
+                           fails[0] if fails else "none (crash inside the allocator) " + e[-300:]),
+                          detail={"failures": fails[:10], "replay": "printf '<commands>\\nF\\n' | %s trace   with commands = %s" % (exe, st.replay),
+                                  "commands_head": st.lines[:30], "last_traced_ops": [" ".join(w) for w in O[-3:]]})
             cov["oracle_failures"] += 1
             continue
         if fails:
@@ -446,7 +451,7 @@ def correspond(ctx):
         prof, n = job[0]
         seed = job[1]
         cmds = "G %d %d %d %d\nF\n" % (seed, n, 2000, prof)
-        return cmds, run_harness(exe, cmds, trace=False, timeout=3000)
+        return cmds, run_harness(exe, cmds, trace=False, timeout=ctx.scale(300, 3000))
 
     jobs = [(j, rng.randrange(1, 1 << 40)) for j in vol]
     with concurrent.futures.ThreadPoolExecutor(max_workers=min(8, len(jobs))) as ex:
